@@ -162,4 +162,72 @@ theorem revWalk_ok (v : Bits) (fromEnd : Bool) (ops : List ItOp) :
     rw [h1]
     exact itWalk_pos _ _ (RevPos v) (reverse_pos v) (revDec_pos v) ops _ h2
 
+/-! ### the post forms inside a walk -/
+
+/-- the pre form of an iterator operation -/
+def ItOp.pre : ItOp → ItOp
+  | .postInc => .inc
+  | .postDec => .dec
+  | o => o
+
+def ItOp.isPost : ItOp → Bool
+  | .postInc => true
+  | .postDec => true
+  | _ => false
+
+/-- the positions before each operation of a walk that starts at `p` and whose outputs are `l` -/
+def startsOf (p : Int) (l : List ItOut) : List Int := p :: (l.map (·.pos)).dropLast
+
+theorem itStep_pre (inc dec : Int → Res Int) (p : Int) (op : ItOp) (o : ItOut)
+    (h : itStep inc dec p op = .ok o) :
+    itStep inc dec p op.pre = .ok ⟨none, o.pos⟩ ∧ o.copy = (if op.isPost then some p else none) := by
+  cases op <;> simp only [itStep, ItOp.pre, ItOp.isPost] at h ⊢
+  · cases hm : inc p <;> rw [hm] at h <;> simp [itStep.rmapI] at h ⊢
+    subst h; simp
+  · cases hm : dec p <;> rw [hm] at h <;> simp [itStep.rmapI] at h ⊢
+    subst h; simp
+  · cases hm : inc p <;> simp [postOp, hm, itStep.rmapP, itStep.rmapI] at h ⊢
+    subst h; simp
+  · cases hm : dec p <;> simp [postOp, hm, itStep.rmapP, itStep.rmapI] at h ⊢
+    subst h; simp
+
+theorem itWalk_post (inc dec : Int → Res Int) : ∀ (ops : List ItOp) (p : Int) (l : List ItOut),
+    itWalk inc dec p ops = .ok l →
+    itWalk inc dec p (ops.map ItOp.pre) = .ok (l.map fun o => ⟨none, o.pos⟩)
+    ∧ l.map (·.copy) = (ops.zip (startsOf p l)).map (fun x => if x.1.isPost then some x.2 else none) := by
+  intro ops
+  induction ops with
+  | nil => intro p l h; simp [itWalk] at h; subst h; simp [itWalk]
+  | cons op ops ih =>
+    intro p l h
+    simp only [itWalk] at h
+    cases hs : itStep inc dec p op with
+    | throw e => rw [hs] at h; simp at h
+    | oob w => rw [hs] at h; simp at h
+    | ok o =>
+      rw [hs] at h
+      simp only at h
+      cases hw : itWalk inc dec o.pos ops with
+      | throw e => rw [hw] at h; simp at h
+      | oob w => rw [hw] at h; simp at h
+      | ok l' =>
+        rw [hw] at h
+        simp only [Res.ok.injEq] at h
+        subst h
+        obtain ⟨h1, h2⟩ := itStep_pre inc dec p op o hs
+        obtain ⟨i1, i2⟩ := ih o.pos l' hw
+        refine ⟨?_, ?_⟩
+        · simp only [List.map_cons, itWalk, h1, i1]
+        · simp only [List.map_cons, startsOf, List.zip_cons_cons]
+          rw [h2]
+          congr 1
+          rw [i2]
+          cases l' with
+          | nil =>
+            cases ops with
+            | nil => simp
+            | cons a b => simp [itWalk] at hw; cases hx : itStep inc dec o.pos a <;> rw [hx] at hw <;> simp at hw
+                          cases hy : itWalk inc dec ‹ItOut›.pos b <;> rw [hy] at hw <;> simp at hw
+          | cons x xs => simp [startsOf]
+
 end CelmaVerif.DynBitset
